@@ -120,6 +120,13 @@ def check_tree(system: model.System) -> List[Viol]:
                 # was it defined there, or is it a method that a re-export moved out of its class (the alias it left
                 # behind in the class tells)?
                 moved = any(isinstance(c, model.Class) and k in c._localNameToFullName_map.values() for c in allobjects.values())
+                if not moved:
+                    # moved more than once: the alias in the class names the first stop only; the harness logged every move
+                    from . import simsystem as _ss
+                    me = _ss.ident(o)
+                    first_old = next((e[2] for e in getattr(system, 'sim_log', []) if e[0] == 'reparent' and e[1] == me), None)
+                    if first_old is not None:
+                        moved = isinstance(allobjects.get(first_old.rpartition('.')[0]), model.Class)
                 out.append((f'I4-method-in-module,kind={o.kind.name},origin={"moved-from-class" if moved else "defined-here"}',
                             f'{k!r} sits in a module but has kind {o.kind}'))
         if isinstance(o, model.Module):
